@@ -44,6 +44,16 @@ FUNCS = {
 }
 
 
+class _Sink(edzed.SBlock):
+    """destination of output events that have no effect on the circuit"""
+
+    def _event(self, etype, data):
+        return None
+
+    def init_regular(self):
+        self.set_output(None)
+
+
 def ref_obj(ref, byname, blocks):
     """scenario reference -> argument for connect()"""
     kind, x = ref
@@ -60,7 +70,14 @@ def build(scn, circuit):
     blocks = {}
     for i, sb in enumerate(scn['sblocks']):
         cls = edzed.Input if sb['kind'] == 'input' else edzed.Counter
-        blocks[f's{i}'] = cls(f's{i}', initdef=sb['init'])
+        kw = {}
+        if sb.get('sink'):
+            # output events to a block that ignores them: 'every' -> on_every_output, 'out' -> on_output
+            if 'sink' not in blocks:
+                blocks['sink'] = _Sink('sink')
+            for mode in sb['sink']:
+                kw['on_every_output' if mode == 'every' else 'on_output'] = edzed.Event('sink', 'ev')
+        blocks[f's{i}'] = cls(f's{i}', initdef=sb['init'], **kw)
     order = scn.get('order') or list(range(len(scn['cblocks'])))
     for j in order:
         cb = scn['cblocks'][j]
@@ -301,7 +318,15 @@ def consistency_violations(scn, outs):
             inputs[k] = ref_value(r, outs)
         for k, g in cb.get('groups', {}).items():
             inputs[k] = [ref_value(r, outs) for r in g]
-        ok, why = expected_output(cb, inputs, outs[f'c{j}'])
+        undef = [k for k, v in inputs.items()
+                 if v is edzed.UNDEF or (isinstance(v, list) and any(x is edzed.UNDEF for x in v))]
+        if outs[f'c{j}'] is edzed.UNDEF or undef:
+            bad.append(f'c{j} ({cb["fn"]}) output {outs[f"c{j}"]!r} with inputs {inputs!r}: UNDEF at an idle point')
+            continue
+        try:
+            ok, why = expected_output(cb, inputs, outs[f'c{j}'])
+        except Exception as err:        # e.g. a value of an unexpected type in a corrupted circuit
+            ok, why = False, f'{type(err).__name__}: {err}'
         if not ok:
             bad.append(f'c{j} ({cb["fn"]}) output {outs[f"c{j}"]!r}, documented function gives: {why}')
     for name, out in outs.items():
